@@ -787,6 +787,121 @@ func TestIterableExpressions(t *testing.T) {
 	evid.Exhaustive("iterable expression form x place of the loop", n)
 }
 
+// TestSlicedIterables: a slice expression yields a new list: a loop over `l[:]` delivers the elements the list had when
+// the loop began whatever its body writes into `l`, and a name bound to a slice and the list it was taken from are two
+// lists - for every slice form.
+func TestSlicedIterables(t *testing.T) {
+	i := gen.NInt
+	slices := []func(o string) *gen.Node{
+		func(o string) *gen.Node { return gen.NSlice(id(o), nil, nil, nil, false) },
+		func(o string) *gen.Node { return gen.NSlice(id(o), i(1), nil, nil, false) },
+		func(o string) *gen.Node { return gen.NSlice(id(o), i(0), i(2), nil, false) },
+		func(o string) *gen.Node { return gen.NSlice(id(o), nil, i(3), nil, false) },
+		func(o string) *gen.Node { return gen.NSlice(id(o), nil, nil, i(1), true) },
+		func(o string) *gen.Node { return gen.NSlice(id(o), nil, nil, i(2), true) },
+		func(o string) *gen.Node { return gen.NSlice(id(o), i(-3), nil, nil, false) },
+		func(o string) *gen.Node { return gen.NSlice(id(o), i(0), i(4), i(1), true) },
+	}
+	n := 0
+	for si, sl := range slices {
+		progs := [][]*gen.Node{
+			// the body overwrites the element that comes next in the original
+			{gen.NSet("l", gen.NList(i(1), i(2), i(3), i(4))), gen.NSet("p", i(0)), gen.NSet("total", i(0)),
+				gen.NForIn("x", sl("l"), []*gen.Node{gen.NCall("probe", gen.NStr("x"), id("x")), gen.NAssign("+=", []*gen.Node{id("total")}, []*gen.Node{id("x")}),
+					gen.NIf([]*gen.Node{gen.NBin("<", id("p"), i(3))}, [][]*gen.Node{{gen.NAssign("=", []*gen.Node{gen.NIndex(id("l"), gen.NBin("+", id("p"), i(1)))}, []*gen.Node{gen.NBin("+", id("x"), i(100))})}}, nil, false),
+					gen.NSet("p", gen.NBin("+", id("p"), i(1)))}),
+				gen.NCall("probe", gen.NStr("after"), id("l"), id("total"))},
+			// two names
+			{gen.NSet("orig", gen.NList(i(1), i(2), i(3), i(4))), gen.NSet("work", sl("orig")),
+				gen.NAssign("=", []*gen.Node{gen.NIndex(id("work"), i(0))}, []*gen.Node{i(9)}), gen.NCall("probe", gen.NStr("wrote-work"), id("orig"), id("work")),
+				gen.NAssign("=", []*gen.Node{gen.NIndex(id("orig"), i(1))}, []*gen.Node{i(7)}), gen.NAssign("+=", []*gen.Node{gen.NIndex(id("orig"), i(2))}, []*gen.Node{i(70)}),
+				gen.NCall("probe", gen.NStr("wrote-orig"), id("orig"), id("work"))},
+			// written from inside a nested block, the slice of a nested list
+			{gen.NSet("box", gen.NMap(gen.NStr("k"), gen.NList(i(1), i(2), i(3), i(4)))), gen.NSet("inner", gen.NIndex(id("box"), gen.NStr("k"))), gen.NSet("work", sl("inner")),
+				gen.NIf([]*gen.Node{gen.NBool(true)}, [][]*gen.Node{{gen.NForIn("q", gen.NList(i(0), i(1)), []*gen.Node{gen.NAssign("=", []*gen.Node{gen.NIndex(id("work"), id("q"))}, []*gen.Node{gen.NBin("*", id("q"), i(11))})})}}, nil, false),
+				gen.NCall("probe", gen.NStr("nested"), id("box"), id("work"))},
+			// a loop over the slice whose body writes through the slice's own name
+			{gen.NSet("l", gen.NList(i(1), i(2), i(3), i(4))), gen.NSet("w", sl("l")),
+				gen.NForIn("x", id("w"), []*gen.Node{gen.NAssign("=", []*gen.Node{gen.NIndex(id("l"), i(0))}, []*gen.Node{gen.NBin("+", gen.NIndex(id("l"), i(0)), id("x"))})}),
+				gen.NCall("probe", gen.NStr("l-w"), id("l"), id("w"))},
+		}
+		for pi, prog := range progs {
+			judge(t, "sliced-iterable", sem.NewCase(gen.FixAll(prog)), true, "sliced-iterable")
+			n++
+			_ = pi
+		}
+		_ = si
+	}
+	evid.Exhaustive("slice form x (loop over the slice while the list is written, two names, nested writer, loop writing through the other name)", n)
+}
+
+// TestEmptyValuedKeys: a key of the point whose value is empty ("" as a tag, "" as a field, nil as a field) is still a
+// key of the point: its bare name reads that value - not the value of a missing key - in conditions, as an iterable,
+// as an operand; whether the host supplied it or the script made it.
+func TestEmptyValuedKeys(t *testing.T) {
+	makes := []struct {
+		name string
+		tags map[string]string
+		flds map[string]any
+		pre  func() []*gen.Node
+	}{
+		{"host-empty-tag", map[string]string{"t": ""}, nil, nil},
+		{"host-empty-field", nil, map[string]any{"t": ""}, nil},
+		{"host-nil-field", nil, map[string]any{"t": nil}, nil},
+		{"host-blank-tag", map[string]string{"t": " "}, nil, nil},
+		{"absent", nil, nil, nil},
+		{"set_tag-empty", nil, nil, func() []*gen.Node { return []*gen.Node{gen.NCall("set_tag", id("t"), gen.NStr(""))} }},
+		{"set_tag-over-tag", map[string]string{"t": "was"}, nil, func() []*gen.Node { return []*gen.Node{gen.NCall("set_tag", id("t"), gen.NStr(""))} }},
+		{"add_key-nil-over-tag", map[string]string{"t": "was"}, nil, func() []*gen.Node { return []*gen.Node{gen.NCall("add_key", id("t"), gen.NNil())} }},
+		{"add_key-empty-over-tag", map[string]string{"t": "was"}, nil, func() []*gen.Node { return []*gen.Node{gen.NCall("add_key", id("t"), gen.NStr(""))} }},
+		{"add_key-empty", nil, nil, func() []*gen.Node { return []*gen.Node{gen.NCall("add_key", id("t"), gen.NStr(""))} }},
+		{"trim-to-empty", map[string]string{"t": "  "}, nil, func() []*gen.Node { return []*gen.Node{gen.NCall("trim", id("t"))} }},
+	}
+	reads := []func() []*gen.Node{
+		func() []*gen.Node {
+			return []*gen.Node{gen.NIf([]*gen.Node{gen.NBin("==", id("t"), gen.NNil()), gen.NBin("==", id("t"), gen.NStr(""))}, [][]*gen.Node{{gen.NCall("probe", gen.NStr("is-nil"))}, {gen.NCall("probe", gen.NStr("is-empty"))}}, []*gen.Node{gen.NCall("probe", gen.NStr("neither"))}, true)}
+		},
+		func() []*gen.Node {
+			return []*gen.Node{gen.NForIn("c", id("t"), []*gen.Node{gen.NCall("probe", gen.NStr("c"), id("c"))}), gen.NCall("probe", gen.NStr("after-loop"))}
+		},
+		func() []*gen.Node {
+			return []*gen.Node{gen.NSet("x", gen.NBin("+", gen.NBin("+", gen.NStr("["), id("t")), gen.NStr("]"))), gen.NCall("probe", gen.NStr("x"), id("x"))}
+		},
+		func() []*gen.Node {
+			return []*gen.Node{gen.NSet("x", id("t")), gen.NCall("probe", gen.NStr("x"), id("x"), gen.NBin("!=", id("t"), gen.NNil()), gen.NCall("len", id("t")))}
+		},
+		func() []*gen.Node {
+			return []*gen.Node{gen.NFor(nil, id("t"), nil, []*gen.Node{gen.NCall("probe", gen.NStr("truthy")), gen.NBreak()}), gen.NCall("probe", gen.NStr("in"), gen.NBin("in", id("t"), gen.NList(gen.NStr(""), gen.NInt(1))), gen.NBin("in", id("t"), gen.NList(gen.NNil())))}
+		},
+		func() []*gen.Node {
+			return []*gen.Node{gen.NAssign("+=", []*gen.Node{id("t")}, []*gen.Node{gen.NStr("more")}), gen.NCall("probe", gen.NStr("compound"), id("t"))}
+		},
+	}
+	n := 0
+	for _, mk := range makes {
+		for ri, rd := range reads {
+			var prog []*gen.Node
+			if mk.pre != nil {
+				prog = append(prog, mk.pre()...)
+			}
+			prog = append(prog, rd()...)
+			c := sem.NewCase(gen.FixAll(prog))
+			c.Fields = map[string]any{"other": int64(1)}
+			for k, v := range mk.flds {
+				c.Fields[k] = v
+			}
+			c.Tags = map[string]string{"keeptag": "kt"}
+			for k, v := range mk.tags {
+				c.Tags[k] = v
+			}
+			judge(t, "empty-valued-key", c, true, "empty-valued-key")
+			n++
+			_ = ri
+		}
+	}
+	evid.Exhaustive("how the empty-valued key came about x way its bare name is read", n)
+}
+
 // TestValuelessAssignment: `NAME = <expression without a value>` is an assignment like any other: NAME becomes (or
 // stays) a variable of the current block that reads as nil - it hides a point key of that name, is what nested
 // blocks update, and vanishes with its block.
